@@ -321,6 +321,8 @@ type CallRec struct {
 	// so that a later second signal or a rewritten Error can be seen
 	Done chan *rpc.Call
 	Call *rpc.Call
+	// NoDone: Go(done=nil) returned a call without a Done channel
+	NoDone bool
 }
 
 // LateSignals reports how many further completions arrived on the call's
@@ -345,6 +347,10 @@ func Method(codec string, shape int) string {
 }
 
 // DoOpt overrides parts of a call made by Do.
+// ErrNoDone is what Do reports for a Go with a nil done channel that came
+// back without a channel to wait on: such a call can never be completed.
+var ErrNoDone = errors.New("rig: Go(done=nil) returned a call whose Done channel is nil: its completion can never be received")
+
 type DoOpt struct {
 	Args  interface{}     // argument object instead of a Box holding the payload
 	Reply interface{}     // reply object instead of a Box holding the sentinel
@@ -388,6 +394,21 @@ func Do(c Caller, form, codec, method string, spec svc.Spec, bufCap int, opt *Do
 	case FormCall:
 		rec.Err = c.Call(method, inObj, outObj)
 	case FormGo:
+		if spec.Counter%2 == 1 {
+			// "If done is nil, Go will allocate a new channel": the caller waits
+			// on the channel of the returned call
+			call := c.Go(method, inObj, outObj, nil)
+			rec.Call = call
+			if call == nil || call.Done == nil {
+				rec.NoDone = true
+				rec.Err = ErrNoDone
+				break
+			}
+			rec.Done = call.Done
+			<-rec.Done
+			rec.Err = call.Error
+			break
+		}
 		rec.Done = make(chan *rpc.Call, 4)
 		call := c.Go(method, inObj, outObj, rec.Done)
 		<-rec.Done
